@@ -67,6 +67,13 @@ func call(overrideFN *string, namespace types.EnvType, fIn types.MalType, args .
 			minArgs, maxArgs = 0, unlimitedArgments
 		}
 	}
+	if contextRequired && (len(args) == 1 || len(args) == 2) {
+		// declared bounds count lisp arguments; the wrappers count Go parameters, context included
+		minArgs++
+		if len(args) == 2 {
+			maxArgs++
+		}
+	}
 	if minArgs > maxArgs {
 		panic(fmt.Errorf("%s: maximum arguments (%d) is lower than minimum arguments (%d)", functionFullName, maxArgs, minArgs))
 	}
